@@ -12,7 +12,7 @@ LEAN_MODULES = ["Properties.C18", "Properties.CoreSym", "Properties.Prov.Symboli
 RULE = (
     "corpus; exhaustive expression trees with <=2 operator nodes over atoms {a, b, 0, 1, 2, 3} and operators + - * // ** Min Max ISqrt Group "
     "(every nesting on either side), seeded random trees to depth 6 (thorough: <=3 nodes exhaustive, depth 8); scopes with small values so "
-    "that powers stay computable; operands ConstantAxis / AnonymousAxis for the TypeError clause. non-trivial = distinct tree with >=2 operator nodes"
+    "that powers stay computable; operands ConstantAxis / AnonymousAxis for the TypeError clause; literals beyond 2^53 under every folding operation. non-trivial = distinct tree with >=2 operator nodes"
 )
 ATOMS = ["a", "b", "1", "2", "3", "0"]
 OPS2 = ["add", "sub", "mul", "div", "exp", "min", "max"]
@@ -143,6 +143,13 @@ def cases(tier, rng, run):
         if atoms and "(" in t:  # (an axis on its own is not arithmetic)
             m = rng.choice(atoms)
             out.append(Case(f"SYM\t{t[:m.start()]}{bad}{t[m.end():]}\ta:2;b:3", "badoperand"))
+    # literal folding is integer arithmetic at every size: literals beyond what a double holds exactly, just below / at / above a
+    # perfect square, under every folding operation
+    bigs = [(2**27) ** 2 - 1, (2**27) ** 2, 10**16 - 1, 10**16, (2**53 + 1), (3**20) ** 2 - 1, 2**62 - 57, 99999999999999999999]
+    for L in bigs:
+        for t in (f"isqrt({L})", f"add(isqrt({L}),a)", f"sub(isqrt({L}),grp(sub(a,4)))", f"div({L},3)", f"div({L},{2**31 - 1})", f"mul({L},3)", f"sub({L},1)",
+                  f"min({L},{L + 1})", f"max({L},{L - 1})", f"add(a,div({L},7))", f"isqrt(mul({L},{L}))"):
+            out.append(Case(f"SYM\t{t}\ta:5;b:2", "biglit"))
     # whole shapes: several entries, markers, constant axes; the annotation built from Shape[...] must be the one built
     # from the printed string (compared with the model's parse of the model's print)
     entries = ["a", "b", "3", "...", "anon(batch)", "const(k,3)", "add(a,1)", "mul(a,b)", "min(a,b)", "grp(sub(a,1))", "isqrt(a)", "div(a,2)",
@@ -202,12 +209,21 @@ def _folds_negative(t) -> bool:
     if t[0] in ("var", "const", "anon"):
         return False
     if t[0] in ("sub", "add", "mul", "div", "exp", "min", "max") and isinstance(t[1], int) and isinstance(t[2], int):
-        try:
-            v = {"sub": t[1] - t[2], "add": t[1] + t[2], "mul": t[1] * t[2], "div": t[1] // t[2] if t[2] else 0,
-                 "exp": t[1] ** t[2] if t[2] >= 0 else 0, "min": min(t[1], t[2]), "max": max(t[1], t[2])}[t[0]]
-        except Exception:  # noqa: BLE001
-            return False
-        return v < 0
+        a, b = t[1], t[2]
+        # (only the operation at hand is computed: a table of all seven would raise huge literals to huge powers)
+        if t[0] == "sub":
+            return a - b < 0
+        if t[0] == "add":
+            return a + b < 0
+        if t[0] == "mul":
+            return (a < 0) != (b < 0) and a != 0 and b != 0
+        if t[0] == "div":
+            return b != 0 and a != 0 and (a < 0) != (b < 0)
+        if t[0] == "exp":
+            return a < 0 and b >= 0 and b % 2 == 1
+        if t[0] == "min":
+            return min(a, b) < 0
+        return max(a, b) < 0
     return any(_folds_negative(x) for x in t[1:])
 
 
